@@ -203,6 +203,10 @@ MUTANTS = [
       "    if metadata is not None:\n        metadata = {}", "C20.2"),
     M("caller-metadata-ignored", F, "    if new_metadata is not None:", "    if new_metadata is None:", "C20.2"),
     M("linkcrtime-none-for-fresh-entry", F, "        if old_ctime is not None:", "        if old_ctime is None:", "C20.2"),
+    M("linkcrtime-fresh-store-dropped", F, "        else:\n            sysmd['linkcrtime'] = now\n", "", "C20.2"),
+    M("benign-linkcrtime-ifexp", F,
+      "        if old_ctime is not None:\n            sysmd['linkcrtime'] = old_ctime\n        else:\n            sysmd['linkcrtime'] = now\n",
+      "        if old_ctime is None:\n            sysmd['linkcrtime'] = now\n        else:\n            sysmd['linkcrtime'] = old_ctime\n", None),
     M("benign-md-default-not", F, "    if metadata is None:\n        metadata = {}", "    if not metadata:\n        metadata = {}", None),
     M("benign-md-default-or", F, "    if metadata is None:\n        metadata = {}", "    metadata = metadata or {}", None),
     M("benign-old-ctime-not-is-none", F, "        if old_ctime is not None:", "        if not (old_ctime is None):", None),
@@ -270,6 +274,16 @@ MUTANTS = [
       "                assert len(e) == 3\n                writecap, readcap, metadata = e\n", None),
     M("vanish-adder-set-node", F, "    def set_node(self, namex, node, metadata):", "    def put_node(self, namex, node, metadata):",
       "ANALYSIS-ERROR"),
+    M("benign-update-metadata-ret-hoist", F, "    metadata['tahoe'] = sysmd\n\n    return metadata\n",
+      "    metadata['tahoe'] = sysmd\n\n    result = metadata\n    return result\n", None),
+    M("benign-set-children-ret-hoist", F, "        d.addCallback(lambda ign: self)\n        return d\n",
+      "        d.addCallback(lambda ign: self)\n        result = d\n        return result\n", None),
+    M("benign-mkdir-ret-hoist", F, "        d.addCallback(_created)\n        return d\n",
+      "        d.addCallback(_created)\n        result = d\n        return result\n", None),
+    M("benign-move-ret-hoist", F, "        d.addCallback(lambda child: self.delete(current_child_name))\n        return d\n",
+      "        d.addCallback(lambda child: self.delete(current_child_name))\n        result = d\n        return result\n", None),
+    M("benign-move-shortcut-ret-hoist", F, "            return defer.succeed(\"redundant rename/relink\")\n",
+      "            done = defer.succeed(\"redundant rename/relink\")\n            return done\n", None),
     # ---- vanished anchor
     M("vanish-move-child-to", F, "    def move_child_to(self, current_child_namex, new_parent,",
       "    def relink_child(self, current_child_namex, new_parent,", "ANALYSIS-ERROR"),
